@@ -41,6 +41,8 @@ pub use self::packet_builder::PacketBuildResult;
 pub use self::packet_builder::PacketBuilder;
 pub use self::packet_builder::PacketData;
 pub use self::packet_builder::RawPacket;
+#[cfg(feature = "verif-hooks")]
+pub use self::packet_builder::VerifPacketBuilderState;
 
 mod store;
 pub use self::store::GenericStore;
